@@ -179,7 +179,9 @@ class Check:
         if self.broken:
             for b in self.broken:
                 print('ANALYSIS-BROKEN property=%s %s' % (self.prop, b))
-            return 2
+            if not self.violations:
+                return 2
+            # a violation found by a rule that was evaluated stands on its own, whatever another rule could not decide
         for v in self.violations:
             h = hashlib.sha1(v['key'].encode()).hexdigest()[:12]
             path = os.path.join(REPORT_DIR, self.prop, h + '.json')
